@@ -113,6 +113,72 @@ func Verif_C01_table_vs_reference() {
 	verifapi.Assert("lock-released", verifapi.HeldLocks() == 0)
 }
 
+// verifAnySymGraph: as verifAnyGraph, for undirected graphs (every link present or absent in both
+// directions with one arbitrary cost) - what a mesh whose links agree on their cost looks like.
+func verifAnySymGraph(s *Netceptor, names []string) *verifGraph {
+	g := &verifGraph{names: names}
+	n := len(names)
+	ms := make([]map[string]float64, n)
+	for u := 0; u < n; u++ {
+		g.has = append(g.has, make([]bool, n))
+		g.cost = append(g.cost, make([]float64, n))
+		ms[u] = map[string]float64{}
+	}
+	for u := 0; u < n; u++ {
+		for v := u + 1; v < n; v++ {
+			c, p := verifapi.Float(), verifapi.Bool()
+			verifapi.Assume(verifapi.All(c > 0, c <= 1000))
+			g.has[u][v], g.cost[u][v], g.has[v][u], g.cost[v][u] = p, c, p, c
+			verifapi.PutIf(ms[u], names[v], c, p)
+			verifapi.PutIf(ms[v], names[u], c, p)
+		}
+	}
+	for u := 0; u < n; u++ {
+		s.knownConnectionCosts[names[u]] = ms[u]
+	}
+	return g
+}
+
+// Verif_C01_table_vs_reference_undirected: the same comparison as Verif_C01_table_vs_reference for
+// every UNDIRECTED weighted graph over four nodes (six links, arbitrary positive costs): large enough for a
+// node whose tentative cost improves while it is queued and another whose best path runs through it.
+func Verif_C01_table_vs_reference_undirected() {
+	names := []string{"A", "B", "C", "D"}
+	n := verifNetceptor("A")
+	s := n.s
+	g := verifAnySymGraph(s, names)
+	verifapi.SetUnwind(60, "routing-table-computation-terminates")
+	s.updateRoutingTable()
+	verifapi.SetUnwind(100000, "")
+	verifapi.Quiesce()
+	verifapi.Cover("table-computed")
+	all := make([][]float64, len(names))
+	for i := range names {
+		all[i] = g.dist(i)
+	}
+	dA := all[0]
+	for di := 1; di < len(names); di++ {
+		d := names[di]
+		hop, listed := s.routingTable[d]
+		verifapi.Assert("listed-iff-reachable", listed == (dA[di] < verifInf))
+		if !listed {
+			continue
+		}
+		verifapi.Cover("route-present")
+		verifapi.Assert("reported-cost-is-least-cost", s.routingPathCosts[d] == dA[di])
+		ok := false
+		for hi := 1; hi < len(names); hi++ {
+			if hop == names[hi] {
+				ok = true
+				verifapi.Assert("next-hop-is-direct-neighbour", g.has[0][hi])
+				verifapi.Assert("next-hop-lies-on-a-least-cost-path", g.cost[0][hi]+all[hi][di] == dA[di])
+			}
+		}
+		verifapi.Assert("next-hop-is-a-known-node", ok)
+	}
+	verifapi.Assert("lock-released", verifapi.HeldLocks() == 0)
+}
+
 // Verif_C01_knowledge_to_table: the pipeline received updates -> knowledge -> table. Node A is
 // connected to B; updates from B and C (arbitrary positive costs, arbitrary neighbour sets over
 // {A,B,C,D}) are handled by the real update handler, then the table is computed. A later update of B
